@@ -1,4 +1,60 @@
 import Gp.Lemmas.Layers.Icmp
-/- C17 for engine licmp: theorems under construction (see notes/licmp.md). -/
+/-
+  C17 for layers/icmp4.go, icmp6.go, icmp6msg.go (engine `licmp`).
+
+  None of the eight ICMP layer types is a link, network or transport layer: the Go types have no
+  LinkFlow / NetworkFlow / TransportFlow method (checked on the real code by the adapter with
+  interface assertions on every decoded layer) and their registered decode functions
+  (`decodingLayerDecoder`: DecodeFromBytes, AddLayer, NextDecoder) never call SetLinkLayer /
+  SetNetworkLayer / SetTransportLayer.  So an ICMP layer never contributes a flow to a packet,
+  and the flows of a packet that contains ICMP are exactly those of the layers below it (engines
+  leth / lip4 / lip6).  What can be stated — and is proved here for every input — is this
+  absence: the builder actions of the whole decode chain ICMPv4|ICMPv6 → message → Payload are
+  only AddLayer, SetApplicationLayer (for the trailing Payload) and the error-layer bookkeeping.
+-/
 namespace Gp.C17.Icmp
+open Gp Gp.Icmp
+
+/-- Every action of the chain is AddLayer / SetApplicationLayer / SetErrorLayer, for any fuel. -/
+theorem chain_acts (f : Nat) : ∀ (k : Kind) (data : Bytes) (o : PktOut), pktRun f k data = .ok o →
+    ∀ a ∈ o.acts, a = .add ∨ a = .setApplication ∨ a = .setError := by
+  induction f with
+  | zero => intro k data o h; cases h
+  | succ f ih =>
+    intro k data o h a ha
+    unfold pktRun at h
+    rw [decodeAny_eq] at h
+    simp only [Res.bind_ok] at h
+    split at h
+    · cases h; simp at ha; rcases ha with ha | ha <;> simp [ha]
+    · split at h
+      · cases h; simp at ha; simp [ha]
+      · split at h
+        · cases h; simp at ha; rcases ha with ha | ha <;> simp [ha]
+        · split at h
+          · cases h; simp at ha; simp [ha]
+          · rename_i k2 _
+            cases hr : pktRun f k2 (pureAny (fresh k) data).layer.payload with
+            | panic pk => rw [hr] at h; cases h
+            | err e => rw [hr] at h; cases h
+            | ok rest =>
+              rw [hr] at h
+              simp only [Res.bind_ok] at h
+              cases h
+              simp only [List.mem_cons] at ha
+              rcases ha with ha | ha
+              · simp [ha]
+              · exact ih k2 _ rest hr a ha
+
+/-- No ICMP decode function installs a link, network or transport layer — for every first layer
+    kind and every input: the packet's LinkFlow/NetworkFlow/TransportFlow never come from ICMP. -/
+theorem decoded_sets_no_flow_layer (k : Kind) (data : Bytes) (o : PktOut) (h : pktRun 3 k data = .ok o) :
+    Act.setLink ∉ o.acts ∧ Act.setNetwork ∉ o.acts ∧ Act.setTransport ∉ o.acts := by
+  have hc := chain_acts 3 k data o h
+  refine ⟨?_, ?_, ?_⟩ <;> intro hm <;> rcases hc _ hm with h1 | h1 | h1 <;> cases h1
+
+/-- non-vacuity: an echo request with payload decodes to ICMPv6, ICMPv6Echo, Payload -/
+example : (match pktRun 3 .icmp6 [128, 0, 0, 0, 0, 1, 0, 2, 0x61, 0x62] with
+    | .ok o => o.acts | _ => []) = [.add, .add, .add, .setApplication] := by decide
+
 end Gp.C17.Icmp
